@@ -96,11 +96,15 @@ Definition cls_of (v : pyval) : pycls :=
   end.
 
 (** guards that accompany an isinstance test *)
-Inductive guard := GAlways | GNan | GInf | GTruthy | GMapLike.
+Inductive guard := GAlways | GNan | GInf | GNul | GTruthy | GMapLike.
 (** the float flavour of a value, all a guard can look at besides the class *)
-Inductive flav := FlPlain | FlNan | FlInf.
+Inductive flav := FlPlain | FlNan | FlInf | FlNul.
 Definition flav_of (v : pyval) : flav :=
-  match v with PFloat FNaN => FlNan | PFloat (FInf _) => FlInf | _ => FlPlain end.
+  match v with
+  | PFloat FNaN => FlNan | PFloat (FInf _) => FlInf
+  | PStr s => if nul_free s then FlPlain else FlNul     (* a str that contains U+0000 *)
+  | _ => FlPlain
+  end.
 
 (** a dispatch chain: if isinstance(value, classes) [and guard]: action; elif ... *)
 Definition chain (A : Type) := list (list pycls * guard * A).
@@ -200,6 +204,7 @@ Definition first_match {A} (ch : chain A) (c : pycls) (fl : flav) (truthy maplik
                  match g with
                  | GAlways => true
                  | GNan => match fl with FlNan => true | _ => false end
+                 | GNul => match fl with FlNul => true | _ => false end
                  | GInf => match fl with FlInf => true | _ => false end
                  | GTruthy => truthy
                  | GMapLike => maplike
